@@ -280,6 +280,7 @@ func (r *Reader) initFields() error {
 			// Ignore this for avoiding infinite loop of the reference.
 			// The example case where this can occur is when tar contains the root
 			// directory itself (e.g. "./", "/").
+			ent.NumLink++ // "." of the root directory, as for an implicitly created root
 			continue
 		}
 		pdir := r.getOrCreateDir(pdirName)
